@@ -6,16 +6,14 @@ import JaqalModel.Model.Generator
 Driver ops for the generator and circuit equality (circuits / values in the `harness/dump.py` format).
 
 * `gen`:    `{"circuit": C}` → `{"ok": text}` | `{"err": exception class}`
-* `pyeq`:   `{"a": C, "b": C}` → `true` | `false` | `{"err": exception class}`   (`a == b`)
-* `val_eq`: `{"a": V, "b": V}` → `true` | `false` | `{"err": exception class}`
+* `pyeq`:   `{"a": C, "b": C}` → `true` | `false`   (`a == b`; no `__eq__` can raise any more)
+* `val_eq`: `{"a": V, "b": V}` → `true` | `false`
 * `stmt_eq`: `{"a": S, "b": S}` → the same for two statements
 -/
 namespace Jaqal.GenOps
 open Lean
 
-def boolOut : M Bool → Json
-  | .ok b => .bool b
-  | .error e => jobj [("err", .str e.cls)]
+def boolOut (b : Bool) : Json := .bool b
 
 def opGen (j : Json) : Jaqal.R Json := do
   let c ← Circuit.fromJson (← jget j "circuit")
